@@ -145,6 +145,17 @@ def skeleton(fn):
     return items, sites
 
 
+def body_fingerprint(fn):
+    """hash of the function's statements (docstring, comments and positions excluded): any edit of the
+    routine changes it"""
+    import hashlib
+    body = list(fn.body)
+    if body and isinstance(body[0], ast.Expr) and isinstance(body[0].value, ast.Constant) and isinstance(body[0].value.value, str):
+        body = body[1:]
+    txt = "\n".join(ast.dump(b, annotate_fields=False, include_attributes=False) for b in body)
+    return hashlib.sha256(txt.encode()).hexdigest()[:16]
+
+
 def order_actions(fn):
     """top-level statements of build_versioned / clean as abstract actions"""
     out = []
@@ -209,6 +220,7 @@ def main():
                     for fn in node.body:
                         if isinstance(fn, ast.FunctionDef):
                             items, sites = skeleton(fn)
+                            items = ["DBody %s" % q(body_fingerprint(fn))] + items
                             funcs.append(("%s.%s" % (node.name, fn.name), items, sites, fn))
         order = {}
         for name, _, _, fn in funcs:
@@ -223,7 +235,7 @@ def main():
             "From Coq Require Import List String.\nImport ListNotations.\nOpen Scope string_scope.\n\n")
     dec = head + ("Inductive dexpr := DAtom (a : string) | DNot (d : dexpr) | DAnd (l : list dexpr) | DOr (l : list dexpr).\n"
                   "Inductive ditem := DTest (kind : string) (d : dexpr) | DFor (it : string) | DTry | DExcept (classes : list string)\n"
-                  "                 | DFinally | DRaise (cls : string).\n\n"
+                  "                 | DFinally | DRaise (cls : string) | DBody (fingerprint : string).\n\n"
                   "Definition decisions : list (string * list ditem) := [\n")
     dec += ";\n".join("  (%s, [%s])" % (q(n), ";\n     ".join(items)) for n, items, _, _ in funcs)
     dec += "\n].\n"
